@@ -48,6 +48,34 @@ Definition berr_clean (e : berr) : bool := match e with BOk => true | _ => false
 Definition body_reader (b : body_result) : reader :=
   {| rd_rem := b_data b; rd_end := if berr_clean (b_end b) then BEof else BFail |}.
 
+(* http.go isProtocolSwitchResponse: 101 + Upgrade + "Connection: upgrade"; the caller then owns
+   the connection: Body (readWriteCloserBody) delivers whatever follows, until the peer closes *)
+Definition K_UPGRADE := bs "Upgrade".
+Definition is_switch (r : resp) : bool :=
+  (r_code r =? 101)%Z &&
+  match hget K_UPGRADE (r_header r) with Some (u :: _) => negb (is_nil u) | _ => false end &&
+  header_values_contain_token (match hget K_CONNECTION (r_header r) with Some v => v | None => [] end)
+                              (bs "Upgrade").
+
+Definition switch_body (r : resp) (rest : bytes) : body_result :=
+  {| b_data := rest; b_end := BOk; b_trailer := r_trailer_declared r; b_rest := [] |}.
+
+Definition final_body (bufsize : nat) (r : resp) (rest : bytes) : body_result :=
+  if is_switch r then switch_body r rest else read_body bufsize r rest.
+
+(* the informational responses skipped on the way, as httptrace.Got1xxResponse reports them *)
+Fixpoint interim_heads (fuel : nat) (meth : bytes) (bufsize : nat) (s : bytes) : list (Z * hmap) :=
+  match fuel with
+  | O => []
+  | S f =>
+      match read_response_head meth bufsize s with
+      | inl _ => []
+      | inr (r, rest) =>
+          if is_1xx_nonterminal (r_code r) then (r_code r, r_header r) :: interim_heads f meth bufsize rest
+          else []
+      end
+  end.
+
 Record h1_delivery := {
   d_resp : resp;
   d_body : body_result;
@@ -58,7 +86,7 @@ Record h1_delivery := {
 Definition h1_exchange (meth : bytes) (m : mode) (sizes : list nat) (s : bytes) : option h1_delivery :=
   match read_final_response meth s with
   | FinOk r rest =>
-      let b := read_body br_size r rest in
+      let b := final_body br_size r rest in
       Some {| d_resp := r; d_body := b; d_api := run_mode m (r_code r) sizes (body_reader b) |}
   | _ => None
   end.
